@@ -38,6 +38,11 @@ SITES = [
          param_types={"total": "Int", "max_elements": "Int"}, ret="Bool"),
     dict(_AUTO, name="autoIsZero", select=("iftest", "current_chunks[autodims[j]] == 0", 0), params=["cur"],
          params_map={"current_chunks[autodims[j]]": "cur"}, param_types={"cur": "Int"}, ret="Bool"),
+    # max_elements given as "auto" (dask config bytes) or as a byte string, with the dtype's itemsize
+    dict(_AUTO, name="autoMaxFromConfig", select=("assign", "max_elements", 0), params=["chunk_bytes", "itemsize"],
+         params_map={"chunk_bytes": "chunk_bytes", "np.dtype(dtype).itemsize": "itemsize"}, ret="Int"),
+    dict(_AUTO, name="autoMaxFromString", select=("assign", "max_elements", 1), params=["nbytes", "itemsize"],
+         params_map={"parse_bytes(max_elements)": "nbytes", "np.dtype(dtype).itemsize": "itemsize"}, ret="Int"),
 ]
 FINGERPRINTS = {
     "validate_chunks": (_F, "validate_chunks"),
